@@ -54,7 +54,7 @@ ASSUMPTIONS = [
     "F5 excluded: a ~ with a fragment operand is not rendered under the runtime-flag mode",
 ]
 
-ADDR = re.compile(r" at 0x[0-9a-fA-F]+")
+ADDR = re.compile(r"(?i) at 0x[0-9a-f]+")  # also after upper / title
 UNESC = re.compile(r"&(amp|lt|gt|#34|#39);")
 _UNMAP = {"amp": "&", "lt": "<", "gt": ">", "#34": '"', "#39": "'"}
 
